@@ -155,11 +155,17 @@ impl Prop for Log {
                 }
                 EStep::RemoteEdit { a, ops } => {
                     on_emitter = false;
+                    if n < 2 {
+                        continue; // no other author in this case
+                    }
                     let r = 1 + (*a as usize % (n - 1));
                     w.local(r, ops);
                 }
                 EStep::ToAuthor { a, which } => {
                     on_emitter = false;
+                    if n < 2 {
+                        continue;
+                    }
                     let r = 1 + (*a as usize % (n - 1));
                     let miss = w.missing(r);
                     if !miss.is_empty() {
